@@ -372,6 +372,7 @@ def build(chk: Check) -> None:
     _functions(chk)
     _builders(chk)
     _builders_numeric(chk)
+    _builders_history(chk)
     _selftests(chk)
 
 
@@ -728,3 +729,32 @@ def _builders_numeric(chk: Check) -> None:
             r = rep()
             chk.struct(f"numeric_instances.builder==function_api[{name};L={ell}]", not r["reproduced"], "ampform.dynamics.builder.RelativisticBreitWignerBuilder.__call__",
                        witness=r, replay=rep, bounded=True)
+
+
+def _builders_history(chk: Check) -> None:
+    """Bounded, real code, HISTORY of builder calls in one process: builders configured with caller-supplied FUNCTIONS as phase-space
+    factor (closures of one factory: same module and qualified name; PhaseSpaceFactorProtocol allows any callable) are called one after
+    the other for the same resonance, decay and L. Each result must be the public function API for the library class that the function
+    wraps -- not the lineshape of an earlier call (SymPy caches products by ==/hash of their arguments)."""
+    particle = Particle(**PARTICLES[0]) if isinstance(PARTICLES[0], dict) else PARTICLES[0]
+
+    def named(c):
+        def phsp(s, m1, m2):
+            return c(s, m1, m2)
+
+        return phsp
+
+    order = (PSP.PhaseSpaceFactorSWave, PSP.PhaseSpaceFactorAbs, PSP.PhaseSpaceFactorComplex, PSP.PhaseSpaceFactor, PSP.PhaseSpaceFactorSWave)
+    for ff in (False, True):
+        def rep(_m=None, ff=ff):
+            for k, c in enumerate(order):
+                call = BLD.RelativisticBreitWignerBuilder(form_factor=ff, energy_dependent_width=True, phsp_factor=named(c))
+                for ell in (0, 2):
+                    r = check_builder(call, ff, True, c, ell, particle)
+                    if r:
+                        return {"reproduced": True, **r, "history": f"call {k + 1} of the sequence {[x.__name__ for x in order]}, each wrapped in a closure of one factory"}
+            return {"reproduced": False}
+
+        r = rep()
+        chk.struct(f"history.builder_uses_the_phsp_factor_it_was_configured_with[ff={int(ff)};edw=1]", not r["reproduced"],
+                   "ampform.dynamics.builder.RelativisticBreitWignerBuilder.__call__", witness=r, replay=rep, bounded=True)
